@@ -69,6 +69,14 @@ pub struct Alignment {
     operations: Vec<AlignmentOperation>,
 }
 
+#[cfg(feature = "verif-hooks")]
+impl Alignment {
+    /// Verification hook (feature `verif-hooks`): read-only access to the operation list.
+    pub fn verif_operations(&self) -> &[AlignmentOperation] {
+        &self.operations
+    }
+}
+
 impl Alignment {
     /// Return the pretty formatted poa alignment as a String. The string
     /// contains sets of (number of queries + 1) lines of length (ncol). First line is for the
